@@ -3,6 +3,8 @@ package main
 import (
 	"encoding/json"
 	"fmt"
+	"os"
+	"path/filepath"
 	"reflect"
 	"strings"
 
@@ -35,6 +37,8 @@ type c14Task struct {
 	Prefix      []string   `json:"prefix,omitempty"` // files added to the file set first
 	Huge        int        `json:"huge,omitempty"`   // length of a content-less file added first (large global positions)
 	Frags       []string   `json:"frags,omitempty"`  // literals for which this task constructs Memoize(Op(lit)) fragments first (cooperative construction)
+	FromFile    bool       `json:"from_file,omitempty"` // the input is loaded with text.ReadFile (the library's only I/O) from a file the harness wrote; equal inputs share one path
+	path        string
 	StaticCheck bool       `json:"static_check,omitempty"`
 }
 
@@ -178,6 +182,7 @@ func (*c14Prop) Gen(r *Rand, pl *Plan) Case {
 	if r.Chance(1, 8) {
 		nt = r.Range(5, 7) // more callers than a typical test would start
 	}
+	useFiles := r.Chance(1, 10) // all inputs of this case go through text.ReadFile
 	for i := 0; i < nt; i++ {
 		t := c14Task{Graph: r.Intn(ng), Eval: r.Chance(2, 3), StaticCheck: r.Chance(1, 6)}
 		spec := &c.Graphs[t.Graph]
@@ -199,6 +204,7 @@ func (*c14Prop) Gen(r *Rand, pl *Plan) Case {
 		if r.Chance(1, 12) {
 			t.Huge = hugeSizes[r.Intn(len(hugeSizes))]
 		}
+		t.FromFile = useFiles
 		for k := r.Intn(3); k > 0 && r.Chance(1, 3); k-- {
 			t.Prefix = append(t.Prefix, strings.Repeat("x", r.Intn(9)))
 		}
@@ -300,6 +306,13 @@ func (t *c14Task) observeRaw(p parsley.Parser) (obs string, raw interface{}) {
 		fs.AddFile(text.NewFile(fmt.Sprintf("pre%d", i), []byte(pre)))
 	}
 	f := text.NewFile("in", []byte(t.Input))
+	if t.FromFile && t.path != "" {
+		rf, err := text.ReadFile(t.path)
+		if err != nil {
+			return "READFILE-ERROR " + err.Error(), nil
+		}
+		f = rf
+	}
 	fs.AddFile(f)
 	ctx := parsley.NewContext(fs, text.NewReader(f))
 	ctx.SetUserContext(fmt.Sprintf("uc%x", fnv(0, t.Input)&0xffff)) // every caller has its own evaluation context
@@ -442,6 +455,30 @@ func c14Run(c *c14Case, probeSequential bool) Verdict {
 			v.Discard = "budget"
 			return v
 		}
+	}
+	// inputs loaded through text.ReadFile: the harness writes them first (equal inputs
+	// share one path), tasks read them concurrently
+	var inputDir string
+	for i := range c.Tasks {
+		t := &c.Tasks[i]
+		if !t.FromFile {
+			continue
+		}
+		if inputDir == "" {
+			d, err := os.MkdirTemp("", "c14in")
+			if err != nil {
+				v.Discard = "no-temp-dir"
+				return v
+			}
+			inputDir = d
+			defer os.RemoveAll(d)
+		}
+		t.path = filepath.Join(inputDir, fmt.Sprintf("in-%x.txt", fnv(0, t.Input)))
+		if err := os.WriteFile(t.path, []byte(t.Input), 0644); err != nil {
+			v.Discard = "no-temp-dir"
+			return v
+		}
+		v.Probes["inputs_loaded_with_ReadFile"]++
 	}
 	before := snapshotRoots()
 	obs := make([]string, n+1)
